@@ -363,6 +363,21 @@ type Finding struct {
 	Key        string   `json:"key"`
 	What       string   `json:"what"`
 	Sentinel   string   `json:"sentinel,omitempty"`
+	Items      []string `json:"items,omitempty"` // the specific types / call sites the finding is confined to
+}
+
+// KnownFor is Known restricted to the items listed for the finding (a different item hitting the same
+// symptom is reported as a violation).
+func KnownFor(id, item string) bool {
+	if !Known(id) {
+		return false
+	}
+	for _, it := range knownMap[id].Items {
+		if it == item {
+			return true
+		}
+	}
+	return false
 }
 
 var (
